@@ -417,6 +417,37 @@ pub fn autoplay_worker(budget: u64, horizon: u64) -> Acc {
     acc
 }
 
+/// Searches from positions whose FEN carries non-trivial move counters, and from positions reached by long reversible
+/// play: anything the engine indexes by a counter of the game (a history of hashes, a clock, a record) meets values
+/// there that the `0 1` of every other root never produces. The checked build is the monitor; only panics that guard a
+/// skipped bounds check are judged here.
+pub fn counter_searches(acc: &mut Acc) -> SpaceReport {
+    let t0 = std::time::Instant::now();
+    let roots = crate::props::e3::counter_roots();
+    let a = par_items(&roots, &|_, spec, acc| {
+        let Ok((game, _)) = spec.build() else {
+            acc.count("counter roots that could not be built (reported elsewhere)");
+            return;
+        };
+        acc.states += 1;
+        for d in 1..=4u8 {
+            acc.evaluations += 1;
+            acc.transitions += 1;
+            let mut t = new_table();
+            let run = run_search(&game, &mut t, &SearchCfg { max_depth: Some(d), stop_at: u64::MAX, depth_monitor: u32::MAX, watchdog: 3_000_000, tableless: false });
+            if let Err(pn) = &run.result {
+                if bounds_related(pn) {
+                    acc.violation(format!("counter-search|{}|{}", spec.text(), d), format!("a depth-{} search overran a fast path: {} [{}]", d, pn, spec.text()), json::obj(vec![("kind", json::s("c15-counter")), ("fen", json::s(spec.fen.clone())), ("history", json::s(spec.history.join(" "))), ("depth", json::i(d))]));
+                    break;
+                }
+            }
+        }
+    });
+    let n = a.states;
+    acc.merge(a);
+    SpaceReport { name: format!("searches (depths 1..=4) from {} roots with FEN move counters on a boundary grid or after reversible shuffles of 96..=104 / 196..=201 plies", roots.len()), states: n, exhaustive: true, note: format!("[{:.1}s]", t0.elapsed().as_secs_f64()) }
+}
+
 pub fn run(tier: &str, seed: i64) -> Outcome {
     let _ = seed;
     let q = tier == "quick";
@@ -457,6 +488,8 @@ pub fn run(tier: &str, seed: i64) -> Outcome {
     stack_cases(tier, &mut a2);
     reports.push(SpaceReport { name: "state stack: games of 1, 2, 397..400 plies through the real `position` command x 4 roots, then unlimited and depth-limited (1, 34, 64, 255[, 112..114]) searches".into(), states: a2.states, exhaustive: true, note: format!("[{:.1}s]", t1.elapsed().as_secs_f64()) });
     acc.merge(a2);
+    let r = counter_searches(&mut acc);
+    reports.push(r);
     // (3) self-play in worker processes
     let t2 = std::time::Instant::now();
     let budgets: Vec<u64> = if q { vec![1, 50] } else { vec![1, 50, 1000] };
@@ -524,6 +557,9 @@ pub fn replay(j: &J) -> Result<Acc, String> {
     match j.get("kind").and_then(|x| x.as_str()) {
         Some("c15-mobility") => mobility_case(j.get("fen").and_then(|x| x.as_str()).ok_or("fen")?, "replay", &mut acc),
         Some("c15-stack") => stack_cases("quick", &mut acc),
+        Some("c15-counter") => {
+            let _ = counter_searches(&mut acc);
+        }
         Some("c15-real-auto") => return Ok(run("quick", 0).acc),
         Some("c15-autoplay") => {
             let b = j.get("budget").and_then(|x| x.as_i()).unwrap_or(1) as u64;
